@@ -737,10 +737,11 @@ func TestVerifC07(t *testing.T) {
 }
 
 // c07giantBudget: how many inputs that declare a byte string above 4 MiB a run may contain
-// (each costs the Go runtime up to seconds of page faults on this machine).
+// (each costs the Go runtime seconds — on a loaded machine tens of seconds — of page faults, so
+// the quick tier, which must not depend on timing, has none; lengths up to 4 MiB are covered).
 func c07giantBudget() int {
 	if vu.Thorough() {
 		return 40
 	}
-	return 6
+	return 0
 }
